@@ -3,6 +3,10 @@
 package absnfs
 
 import (
+	"syscall"
+	"sync/atomic"
+	"sync"
+	"os"
 	"time"
 	"fmt"
 	"reflect"
@@ -28,6 +32,7 @@ func TestVerif_C03(t *testing.T) {
 	rec.Rule = "exhaustive matrix create mode x existing object x sattr3 (mode?, size class, uid?, gid?) x verifier x caller, then seeded create/write/create-again histories; distinct = (mode, existing, size class, verifier, outcome) tuples"
 	rec.Exhaustive = true
 	defer rec.Write()
+	vfC03BackendFaults(rec)
 	sizes := []int{-1, 0, 3, 100}
 	n := 0
 	for how := uint32(0); how < 3; how++ {
@@ -401,6 +406,88 @@ func vfC03History(rec *evid.Rec, ep int) {
 				exclVerf[name] = verf
 			}
 			rec.Distinct(fmt.Sprintf("hist|%s|%s|sameVerf=%v|st=%d", vfC03Modes[how], ex, sameVerf, r.Status))
+		}
+	}
+}
+
+// vfC03BackendFaults: CREATE of a name that is an existing regular file with data, in every mode
+// (no size in the request), while exactly one backend call of the request fails - any call, reads
+// included (a transient error of the backend). Whatever the server answers, the existing file is
+// still there with its bytes and its mode: no error path may clean up what the request did not create.
+func vfC03BackendFaults(rec *evid.Rec) {
+	for how := uint32(0); how < 3; how++ {
+		for _, cached := range []bool{false, true} {
+			setup := func() (*refs.FS, *vfSrv, *vfClient, uint64, bool) {
+				fs := refs.New()
+				fs.PlantDir("/d", 0777, 0, 0)
+				fs.PlantFile("/d/keep", []byte("precious bytes"), 0640, 1000, 1000)
+				o := ExportOptions{AttrCacheTimeout: 1}
+				if cached {
+					o = ExportOptions{AttrCacheTimeout: time.Hour, EnableDirCache: true, CacheNegativeLookups: true}
+				}
+				srv, err := vfNewSrv(fs, o)
+				if err != nil {
+					rec.Infra(err.Error())
+					return nil, nil, nil, 0, false
+				}
+				c := srv.client()
+				root, _ := c.mnt("/")
+				dl, _ := c.lookup(root, "d")
+				if dl == nil || dl.Status != 0 {
+					rec.Infra("lookup /d")
+					srv.Close()
+					return nil, nil, nil, 0, false
+				}
+				return fs, srv, c, vfFH(dl.FH), true
+			}
+			create := func(c *vfClient, dh uint64) *rfc.Res {
+				r, _ := c.create(dh, "keep", how, sattrNone, [8]byte{9, 9, 9, 9, 9, 9, 9, 9})
+				return r
+			}
+			fs, srv, c, dh, ok := setup()
+			if !ok {
+				return
+			}
+			var calls []string
+			var mu sync.Mutex
+			fs.SetHook(func(op *refs.Op, ph refs.Phase) error {
+				if ph == refs.Before {
+					mu.Lock()
+					calls = append(calls, op.Name)
+					mu.Unlock()
+				}
+				return nil
+			})
+			create(c, dh)
+			fs.SetHook(nil)
+			srv.Close()
+			for k, callName := range calls {
+				fs, srv, c, dh, ok := setup()
+				if !ok {
+					return
+				}
+				var n atomic.Int32
+				fs.SetHook(func(op *refs.Op, ph refs.Phase) error {
+					if ph == refs.Before && int(n.Add(1))-1 == k {
+						return &os.PathError{Op: strings.ToLower(op.Name), Path: op.Path, Err: syscall.EIO}
+					}
+					return nil
+				})
+				r := create(c, dh)
+				fs.SetHook(nil)
+				rec.Eval(1)
+				b, present := fs.Bytes("/d/keep")
+				e, _ := fs.Snapshot()["/d/keep"]
+				status := "no-reply"
+				if r != nil {
+					status = fmt.Sprint(r.Status)
+				}
+				if !present || string(b) != "precious bytes" || e.Perm&0777 != 0640 {
+					rec.Violate(fmt.Sprintf("C03/existing-object-changed-or-destroyed/mode=%s/backend-call-failed=%s", []string{"UNCHECKED", "GUARDED", "EXCLUSIVE"}[how], callName), fmt.Sprintf("CREATE (%s, no size) of an existing file answered status %s while backend call #%d (%s) failed with EIO; afterwards the file is present: %v, bytes %q (were %q), mode %o (was 640)", []string{"UNCHECKED", "GUARDED", "EXCLUSIVE"}[how], status, k, callName, present, b, "precious bytes", e.Perm&0777), map[string]any{"mode": how, "failed_call": fmt.Sprintf("#%d %s", k, callName), "caches": cached, "backend_calls": calls})
+				}
+				rec.Distinct(fmt.Sprintf("backend-fault|how=%d|caches=%v|call=%s|status=%s", how, cached, callName, status))
+				srv.Close()
+			}
 		}
 	}
 }
